@@ -1,7 +1,7 @@
 (* C07 — SWC files round-trip and are valid, parent-first SWC tables. *)
 From Coq Require Import List ZArith Bool.
 Import ListNotations.
-From Navis Require Import model.Forest model.Swc proofs.ForestWF proofs.SwcProofs.
+From Navis Require Import model.Forest model.Swc proofs.ForestWF proofs.SwcProofs model.Fmt proofs.FmtProofs.
 Open Scope Z_scope.
 
 (* ids 1..N without gaps, in file order *)
@@ -28,3 +28,23 @@ Theorem C07_file_checker_sound : forall rows, swc_valid_b rows = true ->
   forall pre i p post, rows = pre ++ (i, p) :: post -> p = -1 \/ (p < i /\ In p (map fst pre)).
 Proof. exact swc_valid_b_sound. Qed.
 Print Assumptions C07_file_checker_sound.
+
+(* ---- name/id attributes taken from the file name as the fmt pattern prescribes (model/Fmt.v = BaseReader.parse_filename) ---- *)
+Theorem C07_fmt_roundtrip : forall sep toks vals, wellsep sep toks = true -> length vals = ngroups toks -> Forall (sepfree sep) vals ->
+  search toks (render toks vals) = Some vals.
+Proof. exact search_roundtrip. Qed.
+Print Assumptions C07_fmt_roundtrip.
+Theorem C07_fmt_own_group : forall bs gs d d' i b g n t, assign bs gs d = Some d' ->
+  nth_error bs i = Some b -> nth_error gs i = Some g -> In (FName n t) (fields_of b) ->
+  (forall t', In (FName n t') (fields_of b) -> t' = t) ->
+  (forall j b' t', (i < j)%nat -> nth_error bs j = Some b' -> ~ In (FName n t') (fields_of b')) ->
+  dget d' n = conv t g.
+Proof. exact assign_own_group. Qed.
+Print Assumptions C07_fmt_own_group.
+Theorem C07_fmt_parse_rendered : forall sep toks vals dir,
+  wf_toks toks -> wellsep sep toks = true -> length vals = ngroups toks -> Forall (sepfree sep) vals ->
+  Forall (fun c => c <> 47%Z) (render toks vals) ->
+  parse_filename (show toks) (dir ++ 47%Z :: render toks vals) = assign (bodies toks) vals [(s_file, VStr (render toks vals))]
+  /\ parse_filename (show toks) (render toks vals) = assign (bodies toks) vals [(s_file, VStr (render toks vals))].
+Proof. exact parse_rendered. Qed.
+Print Assumptions C07_fmt_parse_rendered.
